@@ -419,6 +419,93 @@ def chanclose(rng, i):
     return {"kind": "chanclose", "cfg": {}, "steps": steps}
 
 
+# --------------------------------------------------------------------------- C20
+import itertools
+
+C20_KINDS = ["srvconn", "srvchan", "ch0", "reqA", "reqB"]
+
+
+def batch_orders(maxlen=4):
+    """every ordered selection of 1..maxlen distinct event kinds"""
+    res = []
+    for k in range(1, maxlen + 1):
+        for comb in itertools.permutations(C20_KINDS, k):
+            res.append(list(comb))
+    return res
+
+
+def batch_scenario(rng, order, base, ch0op):
+    """Parks the I/O thread before poll, makes the events of `order` pending in that very
+    order (mio's readiness queue is FIFO), then lets the I/O thread handle them in one wake-up."""
+    steps, ids = opens(2, [3, 5])
+    a, b = ids["A"], ids["B"]
+    if base == "consumer":
+        steps.append({"do": "consume", "h": "A", "as": "cA"})
+        steps.append({"do": "consume", "h": "B", "as": "cB"})
+    elif base == "listener":
+        steps.append({"do": "listen", "h": "conn", "what": "blocked", "as": "BL"})
+        steps.append({"do": "listen", "h": "A", "what": "confirms", "as": "LA"})
+    steps.append({"do": "sync"})
+    steps.append({"do": "gate", "arm": True})
+    # make the I/O thread come round to the gate (it may be blocked in poll already)
+    # (a request that leaves nothing to write, so the stream is not re-armed behind our back)
+    steps.append({"do": "listen", "h": "B", "what": "returns", "as": "Lkick"})
+    steps.append({"do": "parked"})
+    waits = []
+    for k in order:
+        steps.append({"do": "mark"})
+        if k == "srvconn":
+            steps.append(srv({"k": "connclose", "code": 320, "text": "CONNECTION_FORCED - c20"}))
+        elif k == "srvchan":
+            steps.append(srv({"k": "chclose", "ch": a, "code": 406, "text": "PRECONDITION_FAILED - c20"}))
+        elif k == "ch0":
+            if ch0op == "open":
+                steps.append({"do": "open", "as": "N", "req": 9, "async": True})
+                steps.append({"do": "await", "ev": "alloc_sent"})
+            elif ch0op == "listen":
+                steps.append({"do": "listen", "h": "conn", "what": "blocked", "as": "BL2"})
+            else:
+                steps.append({"do": "closeconn", "async": True})
+                steps.append({"do": "await", "ev": "recv_begin"})
+            waits.append("conn")
+        elif k == "reqA":
+            if rng.random() < 0.5:
+                steps.append(dict(op("A", "qos"), **{"async": True}))
+                steps.append({"do": "await", "ev": "recv_begin"})
+            else:
+                steps.append(op("A", "publish", len=5, pid=1))
+            waits.append("A")
+        else:
+            if rng.random() < 0.5:
+                steps.append(dict(op("B", "declare", q="b"), **{"async": True}))
+                steps.append({"do": "await", "ev": "recv_begin"})
+            else:
+                steps.append(op("B", "publish", len=7, pid=2))
+            waits.append("B")
+    steps.append({"do": "gate", "arm": False})
+    steps.append({"do": "sync"})
+    for wname in waits:
+        steps.append({"do": "wait", "who": wname})
+    # afterwards: every handle is used once more, queues are read, the connection is closed
+    steps.append(op("A", "qos"))
+    steps.append(op("B", "qos"))
+    if "ch0" in order and ch0op == "open":
+        steps.append(op("N", "qos"))
+    steps.append({"do": "closeconn"})
+    return {"kind": "batch", "order": order, "base": base, "ch0op": ch0op, "cfg": {}, "steps": steps}
+
+
+def batches(rng, maxlen, bases, reps=1):
+    res = []
+    for order in batch_orders(maxlen):
+        for base in bases:
+            ops0 = ["open", "listen", "close"] if "ch0" in order else ["open"]
+            for ch0op in ops0:
+                for _ in range(reps):
+                    res.append(batch_scenario(rng, order, base, ch0op))
+    return res
+
+
 FAMILIES = {"consumer_drop": consumer_drop, "rpc": rpc, "content": content, "consumer": consumer, "listeners": listeners,
             "connclose": connclose, "chanclose": chanclose}
 
